@@ -45,6 +45,40 @@ Clauses(e) ==
          << <<"TruthTableResultColumn", \A j \in 1..Len(d.xs) : e.table[j] = ResultRows(t, Keys(d)[j], Vals(d)[j])>>,
             <<"ReasonsAreFirstFlagPerRow", \A j \in 1..Len(d.xs) :
                  e.reasons[j] = (IF Filter(t, d)[j] = "T" THEN <<>> ELSE Reasons(t, Keys(d)[j], Vals(d)[j]))>> >>
+    [] e.op = "data_api" ->
+         IF ~DataOk(e.doc) THEN << <<"DataRefusesScalarsAndEmpty", e.outcome = "raised:TypeError">> >> ELSE
+         << <<"DataAccepted", e.outcome = "ok">>,
+            <<"LenIsNumberOfChildren", e.len = DataLen(e.doc)>>,
+            <<"IterYieldsKeysInOrder", SameSeq(e.iter, DataIter(e.doc))>>,
+            <<"GetItemIsChildValueByPosition", Len(e.items) = DataLen(e.doc) /\ \A j \in 1..Len(e.items) : Same(e.items[j], DataItem(e.doc, j - 1))>>,
+            <<"IsListIsKind", e.is_list = (e.doc.k = "list")>>,
+            <<"OriginalIsTheDocument", Same(e.result, e.doc)>>,
+            <<"DataEqIsStructural", e.eq_copy /\ ~e.eq_other>> >>
+    [] e.op = "fd_algebra" ->
+         LET a == NormT(e.rcond)  b == NormT(e.rcond2)  d == e.doc
+             unc == \E j \in 1..Len(d.xs) : Filter(a, d)[j] = "U" \/ Filter(b, d)[j] = "U"
+         IN IF ~StoreOk(e.rcond) \/ ~StoreOk(e.rcond2) \/ MixErr(e.rcond) \/ MixErr(e.rcond2) \/ unc \/ e.outcome # "ok"
+            THEN << <<"Skip", TRUE>> >> ELSE
+         << <<"AlgebraIsItemwise", e.res = AlgResult(e.bop, a, b, d)>>,
+            <<"FlagsCombine", \A j \in 1..Len(d.xs) : LET f == AlgFlags(e.bop, a, b, d)[j] IN
+                 e.ppe[j] = f.ppe /\ e.ce[j] = f.ce /\ e.cf[j] = f.cf>>,
+            <<"SelectedDataAndKeys", SameSeq(e.data, Selected(Vals(d), e.res)) /\ SameSeq(e.keys, Selected(Keys(d), e.res))>>,
+            <<"FailuresAreReasonsOfFailingItems", e.reasons = AlgFailures(e.bop, a, b, d)>>,
+            \* combining CONDITIONS treats null as the identity of every operator (C02); combining RESULTS treats the
+            \* all-true result of null as an ordinary operand - the two agree unless an operand is null
+            <<"FilteringCommutesWithCombiningUnlessNull", (a.t # "null" /\ b.t # "null") => e.same_as_cond>>,
+            <<"ConditionAlgebraDropsNull", e.cond_res = [j \in 1..Len(d.xs) |->
+                  Filter(IF a.t = "null" THEN b ELSE IF b.t = "null" THEN a ELSE BinT(e.bop, a, b), d)[j] = "T"]>>,
+            <<"DifferentSourcesRefused", e.other_source = "raised:RuntimeError">> >>
+    [] e.op = "filter_paths" ->
+         LET t == NormT(e.rcond)  d == e.doc
+             unc == \E j \in 1..Len(d.xs) : Filter(t, d)[j] = "U"
+         IN IF ~StoreOk(e.rcond) \/ MixErr(e.rcond) \/ unc \/ e.outcome # "ok" THEN << <<"Skip", TRUE>> >> ELSE
+         << <<"ResultIsThatOfTheValues", e.res = [j \in 1..Len(d.xs) |-> Filter(t, d)[j] = "T"]>>,
+            <<"DataAreTheValues", SameSeq(e.data, Selected(Vals(d), e.res))>>,
+            <<"ItemsCarryTheirPaths", Len(e.items) = Len(d.xs) /\ \A j \in 1..Len(e.items) :
+                 Same(e.items[j].source, Vals(d)[j]) /\ e.items[j].result = e.res[j] /\ Same(e.items[j].path, e.paths[j])>>,
+            <<"ItemFailureIsFailureByIndex", e.item_fail_ok>> >>
     [] e.op = "kinds" ->
          LET t == NormT(e.rcond) IN
          << <<"KindPredicates", (StoreOk(e.rcond) /\ ~MixErr(e.rcond) /\ t.t # "null") =>
